@@ -108,7 +108,7 @@ theorem entryOK_cases {c : Comp} {b : Nat} {e : List Nat} (h : entryOK c b e = t
     match e, h1 with
     | [p, x, y], h1 =>
       simp only [Bool.and_eq_true, beq_iff_eq] at h1
-      exact ⟨x, y, by rw [h1.1.1.1], h1.1.1.2, h1.1.2, h1.2⟩
+      exact ⟨x, y, by rw [h1.1.1.1], h1.1.1.2, h1.1.2, by rw [hexPair_eq_spec]; exact h1.2⟩
 
 theorem entryOK_stop {c : Comp} {b : Nat} {e : List Nat} (h : entryOK c b e = true) :
     ∀ ch ∈ e, (stopSet c).contains ch = false := by
